@@ -16,6 +16,10 @@ class Undecided(Exception):
     pass
 
 
+class LoopCut(Exception):
+    """the declared unrolling bound was reached: the row is truncated by design (not a verdict)"""
+
+
 # ------------------------------------------------------------------------------------------------ values
 class V:
     pass
@@ -413,7 +417,7 @@ class FDI:
                     cell, proj = v.cell, list(v.proj)
                 elif isinstance(v, Sym):
                     # reference / box atom: materialise a cell holding the pointee atom
-                    key = f"*{v.n}"
+                    key = f"@ptr:{v.n}"
                     if key not in st.refine:
                         is_r = bool(v.ty) and is_ref_ty(v.ty)
                         pointee_ty = strip_one_ref(v.ty) if is_r else self._box_inner(v.ty)
@@ -523,10 +527,29 @@ class FDI:
                     if vs and len(vs) == 1 and not vs[0][1]:
                         return Agg(self.adt_head(ty), vs[0][0], [], ty=ty)
                     return Const(None, ty)
+            if op.get('def') and op.get('promoted') is not None:
+                pv = self.eval_promoted(st, f"{op['def']}::promoted[{op['promoted']}]")
+                if pv is not None:
+                    return pv
             if op.get('def'):
                 return Sym(f"const:{op['def']}", ty)
             return Sym(f"const:{op.get('dbg')}", ty)
         return Unknown('operand')
+
+    def eval_promoted(self, st, path):
+        """promoted constants are straight-line bodies: evaluate bb0's statements in a scratch frame"""
+        body = self.f.bodies.get(path)
+        if body is None or len(body.blocks) != 1:
+            return None
+        cells = {i: st.alloc(Unknown(f"uninit promoted _{i}")) for i in range(len(body.locals))}
+        fr = Frame(body, cells, None)
+        for s_ in body.blocks[0]['stmts']:
+            if s_['k'] == 'assign':
+                v = self.eval_rvalue(st, fr, s_['rv'])
+                if isinstance(v, tuple):
+                    return None
+                self.write_place(st, fr, s_['place'], v)
+        return st.heap[cells[0]]
 
     def eval_rvalue(self, st, fr, rv):
         """returns a value, or a list of (state-mutator, value) alternatives via self._alts"""
@@ -624,10 +647,21 @@ class FDI:
             an, bn = a.name(), b.name()
             if base in ('Add', 'Mul', 'BitAnd', 'BitOr', 'BitXor') and bn < an:
                 an, bn = bn, an
+            la, lb = self._lin(a), self._lin(b)
             if base == 'Add' and isinstance(b, Const) and b.v == 0:
                 r = a
             elif base == 'Add' and isinstance(a, Const) and a.v == 0:
                 r = b
+            elif base in ('Add', 'Sub') and la and lb and (la[1] is None or lb[1] is None) and not (base == 'Sub' and lb[1] is not None):
+                c = la[0] + (lb[0] if base == 'Add' else -lb[0])
+                atom = la[1] or lb[1]
+                if atom is None:
+                    r = Const(c)
+                elif c == 0:
+                    r = atom
+                else:
+                    r = Sym(f"({c}+{atom.n})", getattr(atom, 'ty', None), ('lin', c, atom.x))
+                    r.lin = (c, atom)
             else:
                 r = Sym(f"({an}{sign}{bn})", getattr(a, 'ty', None), ('op', sign, self.xof(st, a), self.xof(st, b)))
             if op.endswith('WithOverflow'):
@@ -637,6 +671,17 @@ class FDI:
         if base == 'Cmp':
             return ('fork-order', a, b, 'Cmp')
         return Unknown(f"binop {op}")
+
+    @staticmethod
+    def _lin(v):
+        """(constant, atom or None) if v is an integer constant, an atom, or constant+atom"""
+        if isinstance(v, Const) and isinstance(v.v, int) and not isinstance(v.v, bool):
+            return (v.v, None)
+        if isinstance(v, Sym):
+            if hasattr(v, 'lin'):
+                return v.lin
+            return (0, v)
+        return None
 
     # ---------------------------------------------------------------- ordering atoms
     def order_alternatives(self, st, a, b, op):
@@ -691,6 +736,7 @@ class FDI:
         if setup:
             setup(self, st, fr)
         self.rows = []
+        self.cut_rows = 0
         self.work = [st]
         while self.work:
             s = self.work.pop()
@@ -699,6 +745,8 @@ class FDI:
             except Undecided as e:
                 s.undecided = str(e)
                 self.rows.append(Row(s))
+            except LoopCut:
+                self.cut_rows += 1
             if len(self.rows) > self.max_rows:
                 raise Undecided(f"more than {self.max_rows} rows")
         return self.rows
@@ -820,7 +868,7 @@ class FDI:
         fr.loop_visits[bb] = n
         if n > self.loop_k + 1:
             st.notes.append('loop-cut')
-            raise Undecided('loop bound')
+            raise LoopCut()
         fr.bb = bb
         fr.stmt_i = 0
 
@@ -948,6 +996,8 @@ class FDI:
                 self.push_frame(st, fv.path, args, (t['dest'], t['target']))
                 return False
             return self.ret(st, fr, t, Sym(f"callptr:{fv.name()}({','.join(a.name() for a in args)})", t['dest_ty']))
+        # not interpreted: whatever is reachable through a `&mut` argument may have been changed by the callee
+        self.havoc_mut_args(st, fr, t, args)
         # unknown callee: pure-function assumption -> an atom named after callee and arguments
         if any(isinstance(a, Unknown) for a in args):
             return self.ret(st, fr, t, Unknown(f"{name} on unknown"))
@@ -957,6 +1007,24 @@ class FDI:
                                            ('eff', name, k, tuple(self.xof(st, a) for a in args))))
         return self.ret(st, fr, t, Sym(f"{name}({','.join(self.describe(st, a) for a in args)})", t['dest_ty'],
                                        ('call', name, tuple(self.xof(st, a) for a in args))))
+
+    def havoc_mut_args(self, st, fr, t, args):
+        for i, a in enumerate(t['args']):
+            if a['k'] not in ('copy', 'move') or a['place']['p']:
+                continue
+            ty = fr.body.locals[a['place']['l']]['ty']
+            if not ty.startswith('&') or not re.match(r"^&('\w+ )?mut ", ty):
+                continue
+            v = args[i]
+            if isinstance(v, Ref):
+                try:
+                    old = self.read_cell_path(st, v.cell, v.proj)
+                except Exception:
+                    continue
+                k = st.fresh('havoc')
+                base = self.describe(st, old)
+                base = base.split("'")[0]
+                self.write_loc(st, v.cell, v.proj, Sym(f"{base}'{k.split('#')[1]}", strip_one_ref(ty), ('havoc', self.xof(st, old), callee_name(t))))
 
     def describe(self, st, v, depth=0):
         v = self.resolve(st, v)
@@ -1178,64 +1246,65 @@ def _fork_option_then(I, st, fr, t, v, handler):
 
 
 def m_map_or(I, st, fr, t, args, name):
-    # Option::map_or(opt, default, f) / Option::map_or_else(opt, dflt_fn, f) / is_some_and(opt, f) / map(opt, f) ...
+    # Option/Result combinators taking closures: fork on the variant, then invoke the closure (interpreted if its
+    # body is in the crate, otherwise its result is an atom named after the callee and its arguments)
     meth = name.split('::')[-1]
     opt = args[0]
+    is_opt = 'Option' in name
+    head = 'std::option::Option' if is_opt else 'std::result::Result'
+    okv = 'Some' if is_opt else 'Ok'
+
+    def invoke(s2, f2, callee, cargs, wrap):
+        """returns True if the state was consumed (frame pushed -> caller re-queues), else completes the call"""
+        def cont(s3, caller, rv):
+            I.write_place(s3, caller, t['dest'], wrap(rv))
+            I.goto(s3, caller, t['target'])
+        if I.call_closure(s2, callee, cargs, cont):
+            return False      # frame pushed; state continues (not consumed)
+        cv = I.resolve(s2, callee)
+        rv = Sym(f"{cv.name()}({','.join(I.describe(s2, a) for a in cargs)})", None, ('call', cv.name(), tuple(I.xof(s2, a) for a in cargs)))
+        return I.ret(s2, f2, t, wrap(rv))
+
+    ident = lambda x: x
 
     def handler(s2, f2, vn, payload):
         succ = vn in ('Some', 'Ok')
-        def cont_wrap(wrap):
-            def cont(s3, caller, rv):
-                I.write_place(s3, caller, t['dest'], wrap(rv))
-                I.goto(s3, caller, t['target'])
-            return cont
-        ident = lambda x: x
         if meth == 'map_or':
-            if succ:
-                return not I.call_closure(s2, args[2], [payload], cont_wrap(ident)) and _fallback(s2, f2)
-            return I.ret(s2, f2, t, args[1])
+            return invoke(s2, f2, args[2], [payload], ident) if succ else I.ret(s2, f2, t, args[1])
         if meth == 'map_or_else':
             if succ:
-                return not I.call_closure(s2, args[2], [payload], cont_wrap(ident)) and _fallback(s2, f2)
-            a = [] if 'Option' in name else [payload]
-            return not I.call_closure(s2, args[1], a, cont_wrap(ident)) and _fallback(s2, f2)
+                return invoke(s2, f2, args[2], [payload], ident)
+            return invoke(s2, f2, args[1], [] if is_opt else [payload], ident)
         if meth in ('is_some_and', 'is_ok_and'):
-            if succ:
-                return not I.call_closure(s2, args[1], [payload], cont_wrap(ident)) and _fallback(s2, f2)
-            return I.ret(s2, f2, t, Const(False))
+            return invoke(s2, f2, args[1], [payload], ident) if succ else I.ret(s2, f2, t, Const(False))
         if meth == 'is_none_or':
-            if succ:
-                return not I.call_closure(s2, args[1], [payload], cont_wrap(ident)) and _fallback(s2, f2)
-            return I.ret(s2, f2, t, Const(True))
+            return invoke(s2, f2, args[1], [payload], ident) if succ else I.ret(s2, f2, t, Const(True))
         if meth in ('map', 'and_then'):
-            head = 'std::option::Option' if 'Option' in name else 'std::result::Result'
-            okv = 'Some' if 'Option' in name else 'Ok'
             if succ:
                 wrap = (lambda rv: Agg(head, okv, [rv])) if meth == 'map' else ident
-                return not I.call_closure(s2, args[1], [payload], cont_wrap(wrap)) and _fallback(s2, f2)
-            return I.ret(s2, f2, t, Agg(head, vn, [payload] if payload is not None and vn == 'Err' else []))
-        if meth in ('unwrap_or_else',):
+                return invoke(s2, f2, args[1], [payload], wrap)
+            return I.ret(s2, f2, t, Agg(head, vn, [payload] if (payload is not None and vn == 'Err') else []))
+        if meth == 'unwrap_or_else':
             if succ:
                 return I.ret(s2, f2, t, payload)
-            a = [] if 'Option' in name else [payload]
-            return not I.call_closure(s2, args[1], a, cont_wrap(ident)) and _fallback(s2, f2)
-        if meth in ('or_else',):
+            return invoke(s2, f2, args[1], [] if is_opt else [payload], ident)
+        if meth == 'or_else':
             if succ:
-                head = 'std::option::Option' if 'Option' in name else 'std::result::Result'
                 return I.ret(s2, f2, t, Agg(head, vn, [payload]))
-            a = [] if 'Option' in name else [payload]
-            return not I.call_closure(s2, args[1], a, cont_wrap(ident)) and _fallback(s2, f2)
-        if meth in ('map_err', 'inspect_err'):
+            return invoke(s2, f2, args[1], [] if is_opt else [payload], ident)
+        if meth in ('map_err', 'inspect_err', 'inspect'):
+            if meth == 'inspect':
+                if not succ:
+                    return I.ret(s2, f2, t, Agg(head, vn, [payload] if payload is not None else []))
+                c = s2.alloc(payload)
+                return invoke(s2, f2, args[1], [Ref(c)], lambda rv: Agg(head, okv, [payload]))
             if succ:
                 return I.ret(s2, f2, t, Agg('std::result::Result', 'Ok', [payload]))
             if meth == 'map_err':
-                return not I.call_closure(s2, args[1], [payload], cont_wrap(lambda rv: Agg('std::result::Result', 'Err', [rv]))) and _fallback(s2, f2)
+                return invoke(s2, f2, args[1], [payload], lambda rv: Agg('std::result::Result', 'Err', [rv]))
             c = s2.alloc(payload)
-            return not I.call_closure(s2, args[1], [Ref(c)], cont_wrap(lambda rv: Agg('std::result::Result', 'Err', [payload]))) and _fallback(s2, f2)
-        return _fallback(s2, f2)
-
-    def _fallback(s2, f2):
-        return I.ret(s2, f2, t, Unknown(f"{name}: closure not interpretable"))
+            return invoke(s2, f2, args[1], [Ref(c)], lambda rv: Agg('std::result::Result', 'Err', [payload]))
+        return I.ret(s2, f2, t, Unknown(f"{name}: not modelled"))
 
     r = _fork_option_then(I, st, fr, t, opt, handler)
     if r is None:
@@ -1361,12 +1430,12 @@ DEFAULT_MODELS = {
     r'as std::ops::FromResidual<.*>>::from_residual$': m_from_residual,
     r'^std::option::Option::<T>::take$': m_option_take,
     r'^std::option::Option::<T>::(map_or|map_or_else|is_some_and|is_none_or|map|and_then|unwrap_or_else|or_else)$': m_map_or,
-    r'^std::result::Result::<T, E>::(map_or|map_or_else|is_ok_and|map|and_then|unwrap_or_else|or_else|map_err|inspect_err)$': m_map_or,
+    r'^std::result::Result::<T, E>::(map_or|map_or_else|is_ok_and|map|and_then|unwrap_or_else|or_else|map_err|inspect_err|inspect)$': m_map_or,
     r'^std::option::Option::<T>::(unwrap|expect)$|^std::result::Result::<T, E>::(unwrap|expect)$': m_unwrap_like,
     r'^std::option::Option::<T>::unwrap_or$|^std::result::Result::<T, E>::unwrap_or$': m_unwrap_or,
     r'as std::ops::Fn(Once|Mut)?<.*>>::call(_once|_mut)?$': m_call_fn,
-    r'as std::cmp::PartialEq(<.*>)?>::(eq|ne)$': m_matches_eq,
-    r'as std::cmp::PartialOrd(<.*>)?>::(lt|le|gt|ge)$': m_partial_ord,
+    r'as std::cmp::PartialEq(<.*>)?>::(eq|ne)$|^std::cmp::PartialEq::(eq|ne)$': m_matches_eq,
+    r'as std::cmp::PartialOrd(<.*>)?>::(lt|le|gt|ge)$|^std::cmp::PartialOrd::(lt|le|gt|ge)$': m_partial_ord,
 }
 DEFAULT_MODELS[r'^std::option::Option::<T>::is_some$'] = m_is_variant('Some')
 DEFAULT_MODELS[r'^std::option::Option::<T>::is_none$'] = m_is_variant('None')
